@@ -90,6 +90,46 @@ def opC09Batch (args : List W) : String :=
     | none => "bad-decode"
   | _ => "bad-arity"
 
+/-- `c06.result (<R rules>…) (<R source>…)`: class of `GetBasicResult`; spec `classWeb`. -/
+def opC06Result (args : List W) : String :=
+  match args with
+  | [rs, src] =>
+    match decIndexed rs, decIndexed src with
+    | some rs, some src =>
+      (classOf (getBasicResult (newMatchingResult rs src))).toString ++ " " ++ (classWeb rs src).toString
+    | _, _ => "bad-decode"
+  | _ => "bad-arity"
+
+/-- `c06.pick`: which rule `GetBasicResult` returns: `b<i>` (i-th rule), `d<i>` (i-th source rule). -/
+def opC06Pick (args : List W) : String :=
+  match args with
+  | [rs, src] =>
+    match decIndexed rs, decIndexed src with
+    | some rs, some src =>
+      let m := newMatchingResult rs src
+      let ans := match getBasicResult m with
+        | none => "none"
+        | some r => if m.replaceRules.isEmpty && m.basicRule.isNone then s!"d{r.listID}" else s!"b{r.listID}"
+      ans ++ " -"
+    | _, _ => "bad-decode"
+  | _ => "bad-arity"
+
+def opC06Dns (args : List W) : String :=
+  match args with
+  | [rs] =>
+    match decIndexed rs with
+    | some rs => (classOf (getDNSBasicRule rs)).toString ++ " " ++ (classDns rs).toString
+    | none => "bad-decode"
+  | _ => "bad-arity"
+
+def opC06DnsPick (args : List W) : String :=
+  match args with
+  | [rs] =>
+    match decIndexed rs with
+    | some rs => (match getDNSBasicRule rs with | none => "none" | some r => s!"b{r.listID}") ++ " -"
+    | none => "bad-decode"
+  | _ => "bad-arity"
+
 def dispatchC (op : String) (args : List W) : Option String :=
   match op with
   | "c07.prio" => some (opC07Prio args)
@@ -98,6 +138,10 @@ def dispatchC (op : String) (args : List W) : Option String :=
   | "c08.removebad" => some (opC08RemoveBad args)
   | "c09.rewrites" => some (opC09Rewrites args)
   | "c09.batch" => some (opC09Batch args)
+  | "c06.result" => some (opC06Result args)
+  | "c06.pick" => some (opC06Pick args)
+  | "c06.dnsbasic" => some (opC06Dns args)
+  | "c06.dnspick" => some (opC06DnsPick args)
   | _ => none
 
 end UF.Ops
